@@ -1026,6 +1026,20 @@ func backoffFacts() {
 		})
 	}
 	defBool("mgr_forwardsBackoff", fwd)
+	// the dial options the manager adds on its own: every grpc.* option constructor called in NewRawManager, in order
+	// (a service config with a retry policy, for one, would make gRPC replay one-way messages on a fresh stream)
+	var dialOpts []string
+	if f := p.findFunc("mgr.go", "NewRawManager"); f != nil {
+		ast.Inspect(f, func(n ast.Node) bool {
+			if c, ok := n.(*ast.CallExpr); ok {
+				if sel, ok := c.Fun.(*ast.SelectorExpr); ok && p.src(sel.X) == "grpc" && strings.HasPrefix(sel.Sel.Name, "With") {
+					dialOpts = append(dialOpts, "grpc."+sel.Sel.Name)
+				}
+			}
+			return true
+		})
+	}
+	defStrList("mgr_dialOpts", dialOpts)
 	chanUses := false
 	if f := p.findFunc("channel.go", "newChannel"); f != nil {
 		chanUses = p.mentions(f, "backoffCfg: n.mgr.opts.backoff")
